@@ -223,7 +223,8 @@ def gen_case(r, i, thorough):
     user = {}
     for rn in G["rules"]:
         if rq.chance(0.25):
-            user[rn] = rq.choice(["plain", "eq_all"])
+            # `init_parent` (constructor stores the parent it is given) only for rules that are never the root
+            user[rn] = rq.choice(["plain", "eq_all"] if rn == "R0" else ["plain", "eq_all", "init_parent"])
     types = names + ["Nope", "object"]
     queries = []
     for _ in range(8):
